@@ -106,7 +106,7 @@ def dense_spec(rng, nt=None, nc=None, ns=None, nsw=None, curated=None, whiten=No
         spec['channel_shanks'] = [rng.randrange(2) for _ in range(nc)]
     if probes:
         spec['channel_probes'] = sorted(rng.randrange(2) for _ in range(nc))
-    w = whiten if whiten is not None else rng.pick(['none', 'diag', 'diag+inv', 'tri', 'tri+inv'])
+    w = whiten if whiten is not None else rng.pick(['none', 'diag', 'diag+inv', 'tri', 'tri+inv', 'tri-invonly', 'diag-invonly'])
     if w.startswith('tri'):
         # non-symmetric whitening with an exactly representable inverse: unit upper-triangular, small integers
         wm = np.eye(nc)
@@ -117,13 +117,19 @@ def dense_spec(rng, nt=None, nc=None, ns=None, nsw=None, curated=None, whiten=No
         inv = np.round(np.linalg.inv(wm))
         assert np.array_equal(wm @ inv, np.eye(nc))
         spec['whitening'] = wm.tolist()
-        if w == 'tri+inv':
+        if w in ('tri+inv', 'tri-invonly'):
             spec['whitening_inv'] = inv.tolist()
+        if w == 'tri-invonly':
+            # only the inverse is stored (whitening_mat.npy absent): the whitening matrix defaults to the identity
+            # while unwhitening uses the stored inverse
+            del spec['whitening']
     elif w != 'none':
         diag = [rng.pick([.5, 1., 2., 4.]) for _ in range(nc)]
         spec['whitening'] = [[diag[i] if i == j else 0. for j in range(nc)] for i in range(nc)]
-        if w == 'diag+inv':
+        if w in ('diag+inv', 'diag-invonly'):
             spec['whitening_inv'] = [[1. / diag[i] if i == j else 0. for j in range(nc)] for i in range(nc)]
+        if w == 'diag-invonly':
+            del spec['whitening']
     if feats:
         nloc = rng.randrange(2, nc + 1)
         spec['pc_features'] = [[[float(rng.randrange(-4, 9)) for _ in range(nloc)] for _ in range(2)] for _ in range(ns)]
